@@ -29,7 +29,7 @@ def run(ctx, prefixes, nwork_q, nwork_t, depth_q, depth_t, what):
                 samples=ctx.samples, exhaustive=False,
                 events=dict(c), crash_points=points, restarts_performed=nprobes, restart_outcomes=dict(outcomes),
                 nested_crash_points=nested, torn_variants=torn, events_validated=ctx.events,
-                design_model="WalRecovery.tla (one heap page; Begin/Insert/MarkDelete/Update/Commit steps/Abort steps/FlushLog/Evict/Checkpoint/Crash with torn last log write/Redo/Undo/Flush/GC/Done; second and third crash between any two recovery steps): invariants Recovered, NoPanic, PageBehindLog exhaustive for 1 txn x 2 slots x 2 values x 2 crashes x 6 log records (thorough: also 2 txns / 1 crash, and 7 records); each of the six repaired defects (switch FALSE) is a counterexample of the same spec",
+                design_model="WalRecovery.tla (one heap page; Begin/Insert/MarkDelete/Update/Commit steps/Abort steps/FlushLog/Evict/Checkpoint/Crash with torn last log write/Redo/Undo/Flush (with the LSN stamp on the catalog page)/GC/re-seed of the new log/Done; second and third crash between any two recovery steps): invariants Recovered, NoPanic, PageBehindLog exhaustive for 1 txn x 2 slots x 2 values x 2 crashes x 6 log records (thorough: also 2 txns / 1 crash, and 7 records); each of the seven repaired defects (switch FALSE) is a counterexample of the same spec",
                 rule="every prefix of each workload's I/O list after the DDL is a crash point; exhaustive per workload, workloads are seeded")
 
 
